@@ -20,6 +20,7 @@ Clauses of the property:
 import OccaProofs.Lemmas.CppCond
 import OccaProofs.Lemmas.CppExpand
 import OccaProofs.Lemmas.CppObj
+import OccaProofs.Lemmas.CppObjAgree
 import OccaModel.Cpp
 
 namespace Occa.Cpp.C13
@@ -195,5 +196,19 @@ theorem C13_expand_agrees_full_fails : ¬ C13_expand_agrees_full := by
             [tId "A", tId "B"] (by decide +kernel) (by decide +kernel)
   revert this
   decide
+
+/-- PARTIAL (the strongest agreement statement proved): on every table of OBJECT-LIKE macros — chains,
+    cycles, self-reference, empty bodies, redefinition order irrelevant — whenever both algorithms finish,
+    OCCA's disable-until-end-marker expansion of a line produces exactly the tokens of the C standard's
+    hide-set expansion of the same tokens (the newline token included, it is an ordinary token for the
+    reference).  Simulation invariant: a macro is in the hide set of a pending token iff it will be disabled
+    when OCCA processes that token.  Function-like macros are excluded by the two counter-examples above. -/
+theorem C13_expand_agrees_partial (vc : Bool) (tbl : List Macro) (toks : List Tok) (hobj : ObjTable tbl)
+    (hnd : NoDefined vc tbl) (ht : ∀ t ∈ toks, t.text ≠ "defined")
+    (n n' : Nat) (o : List Tok) (s' : PP) (r : List HTok)
+    (h1 : expandLine vc n { table := tbl } toks = .ok (o, s'))
+    (h2 : expandR n' tbl ((toks ++ [nlTok]).map (fun t => (⟨t, []⟩ : HTok))) = .ok r) :
+    o = r.map (·.tok) :=
+  expandLine_obj_agrees vc tbl toks hobj hnd ht n n' o s' r h1 h2
 
 end Occa.Cpp.C13
